@@ -116,7 +116,41 @@ func checkCandidates(w *World, r *Result) {
 	r.cond(inNames, "AGR-C11c", fi.Name, "candidates in scope.Names() order", pos, "appended while ranging over the sorted scope names, never re-ordered", "candidates are not collected in scope.Names() order")
 	var shape []string
 	good := true
-	for _, c := range pathConds(fi.Decl, app) {
+	conds := pathConds(fi.Decl, app)
+	if ycall, isYield := app.(*ast.CallExpr); isYield {
+		// the yield may sit inside a condition (`if !isNamed || !yield(x) { return }`): what precedes it in the
+		// short-circuit evaluation holds when it is reached
+		conds = append(conds, shortCircuitConds(fi.Decl, ycall)...)
+		// an iterator ends the whole collection when it returns: inside the loop it may only do so because the
+		// consumer stopped (`!yield(x)`), never because the current object is not a candidate
+		stops := ""
+		ast.Inspect(fi.Decl.Body, func(x ast.Node) bool {
+			rs, ok := x.(*ast.RangeStmt)
+			if !ok || !(rs.Body.Pos() <= ycall.Pos() && ycall.End() <= rs.Body.End()) {
+				return true
+			}
+			ast.Inspect(rs.Body, func(y ast.Node) bool {
+				is, ok := y.(*ast.IfStmt)
+				if !ok || !terminates(is.Body) {
+					return true
+				}
+				if _, isRet := is.Body.List[len(is.Body.List)-1].(*ast.ReturnStmt); !isRet {
+					return true
+				}
+				// the only accepted guard: the negated yield call itself
+				c := ast.Unparen(is.Cond)
+				if u, ok := c.(*ast.UnaryExpr); ok && u.Op == token.NOT && ast.Unparen(u.X) == ast.Expr(ycall) {
+					return true
+				}
+				stops = "`if " + es(is.Cond) + " { return }`"
+				return true
+			})
+			return true
+		})
+		r.cond(stops == "", "AGR-C11c", fi.Name, "the iterator visits every scope name", pos, "inside the loop the iterator returns only when the consumer stopped",
+			"the iterator over the candidates returns under "+stops+": the collection ends at the first object that fails the test instead of skipping it, so every type that sorts after it (members and whole unions) is lost")
+	}
+	for _, c := range conds {
 		if c.expr == nil || c.loop {
 			continue
 		}
@@ -153,6 +187,39 @@ func checkCandidates(w *World, r *Result) {
 		"the candidate filter is {"+strings.Join(shape, ", ")+"}: types that are not declared in this package (e.g. alias targets) can become candidates, or declared ones are dropped")
 }
 
+// shortCircuitConds: target lies inside the condition of an if statement; returns what the short-circuit evaluation
+// has established when target is evaluated (`A || target`: A is false; `A && target`: A is true).
+func shortCircuitConds(fd *ast.FuncDecl, target ast.Expr) []pcond {
+	var out []pcond
+	ast.Inspect(fd, func(x ast.Node) bool {
+		is, ok := x.(*ast.IfStmt)
+		if !ok || !(is.Cond.Pos() <= target.Pos() && target.End() <= is.Cond.End()) {
+			return true
+		}
+		var walk func(e ast.Expr)
+		walk = func(e ast.Expr) {
+			e = ast.Unparen(e)
+			if u, ok := e.(*ast.UnaryExpr); ok && u.Op == token.NOT {
+				walk(u.X)
+				return
+			}
+			be, ok := e.(*ast.BinaryExpr)
+			if !ok || (be.Op != token.LOR && be.Op != token.LAND) {
+				return
+			}
+			if be.Y.Pos() <= target.Pos() && target.End() <= be.Y.End() {
+				out = append(out, splitCond(be.X, be.Op == token.LAND)...)
+				walk(be.Y)
+			} else {
+				walk(be.X)
+			}
+		}
+		walk(is.Cond)
+		return true
+	})
+	return out
+}
+
 func checkMemberFilter(w *World, r *Result) {
 	fi := w.MustFunc("analysis.fetchPkgUnions")
 	info := fi.Pkg.TypesInfo
@@ -163,7 +230,7 @@ func checkMemberFilter(w *World, r *Result) {
 	_, candApp := candidatesSite(w)
 	for _, cf := range calleeClosure(w, fi, 1) {
 		for _, a := range appendStmts(cf.Pkg.TypesInfo, cf.Decl.Body, "") {
-			if t := cf.Pkg.TypesInfo.TypeOf(a.Lhs[0]); t == nil || t.String() != "[]*go/types.Named" || a == candApp {
+			if t := cf.Pkg.TypesInfo.TypeOf(a.Lhs[0]); t == nil || t.String() != "[]*go/types.Named" || ast.Node(a) == candApp {
 				continue
 			}
 			// the candidate list (allNamedTypes) is also a []*types.Named: members are the ones appended in
@@ -643,16 +710,36 @@ func checkImplements(w *World, r *Result) {
 // candidatesSite locates where the candidates of a package's unions are collected: the one append to a
 // []*types.Named that is not guarded by an Implements test, in fetchPkgUnions or in a helper of its package it calls
 // (the collection may be its own function or inlined). Whether it ranges over scope.Names() is AGR-C11c's question.
-func candidatesSite(w *World) (*FuncInfo, *ast.AssignStmt) {
+func candidatesSite(w *World) (*FuncInfo, ast.Node) {
 	fu := w.Func("analysis.fetchPkgUnions")
 	if fu == nil {
 		return nil, nil
 	}
 	var rfi *FuncInfo
-	var rapp *ast.AssignStmt
+	var rapp ast.Node
 	n := 0
 	for _, cf := range calleeClosure(w, fu, 2) {
 		info := cf.Pkg.TypesInfo
+		// an iterator over the candidates (`func(yield func(*types.Named) bool)`): what it yields is the collection
+		if res := cf.Decl.Type.Results; res != nil && res.NumFields() == 1 {
+			if t := info.TypeOf(res.List[0].Type); t != nil && strings.HasSuffix(t.String(), "iter.Seq[*go/types.Named]") {
+				ast.Inspect(cf.Decl.Body, func(x ast.Node) bool {
+					lit, ok := x.(*ast.FuncLit)
+					if !ok || lit.Type.Params.NumFields() != 1 || len(lit.Type.Params.List[0].Names) != 1 {
+						return true
+					}
+					yobj := info.Defs[lit.Type.Params.List[0].Names[0]]
+					ast.Inspect(lit.Body, func(y ast.Node) bool {
+						if call, ok := y.(*ast.CallExpr); ok && identOf(call.Fun) != nil && objOf(info, identOf(call.Fun)) == yobj {
+							rfi, rapp = cf, call
+							n++
+						}
+						return true
+					})
+					return false
+				})
+			}
+		}
 		for _, a := range appendStmts(info, cf.Decl.Body, "") {
 			if t := info.TypeOf(a.Lhs[0]); t == nil || t.String() != "[]*go/types.Named" {
 				continue
